@@ -25,6 +25,7 @@ EXPLANATION = (
     "following the expansion scheme (dropping a constraint element weakens the problem and lowers the reported minimum); (R6) the caller's options dict - from which the `lowerbound_k` option is read - and the other "
     "(R8) the greedy shortcut is accepted only after a coverage test that counts the constraint's edges among the *edges* of a path (body of graphutils.max_occurrence) in the unit of the threshold.  "
     " (R2, extended) the exclusive upper end of the k-range is at least |E| + number of subpath constraints + 1: pairwise incompatible constraints need a path each. "
+    " (R9) elements of a float generating set that are zero up to the tolerance (solver noise) are not handed to the given-weights model as coefficients. "
     "input objects are never written (sub-searches work on copies), so a bound computed for one graph cannot leak into the search on another.  NOT decided: minimality, completeness, validity of each provider as a bound."
 )
 DECIDED = ["search protocol of MinFlowDecomp.solve on every path", "range reaches the largest attainable optimum",
@@ -106,3 +107,7 @@ def check(prog: Program, rep):
     from rules.c10 import max_occurrence_rule
     from rules.common import RuleProxy
     max_occurrence_rule(prog, RuleProxy(rep, "C03.R8"), "C10.R5")
+    rep.rule("C03.R9", "solver noise of a float generating set does not reach the given-weights model as coefficients", floor=1)
+    from rules.values import generating_set_as_weights
+    generating_set_as_weights(prog, rep, "C03.R9", "MinFlowDecomp")
+
